@@ -25,14 +25,18 @@ VARIABLES segs,    \* Seq([c : content, kind : "built" | "merged" | "loaded"])
           pls,     \* Seq([seg, field, term, ex : bitmap handle or 0, gen : generation of the object])
           its,     \* Seq([pl, plgen, idx, closed])
           accs,    \* Seq([val, origin]): statistics objects (origin: the (segment, field) lookup that produced them)
+          flists,  \* Seq(Seq(field name)): caller-owned field lists (one Go slice each), handed to DocumentValueReader
+          dvrs,    \* Seq([seg, fl]): doc-value readers (fl: the list object they were opened with)
+          dits,    \* Seq([seg, field, open]): dictionary iterators that stay open across calls
           hist, last
-vars == <<segs, bms, pls, its, accs, hist, last>>
-view == <<segs, bms, pls, its, accs, last>>
+vars == <<segs, bms, pls, its, accs, flists, dvrs, dits, hist, last>>
+view == <<segs, bms, pls, its, accs, flists, dvrs, dits, last>>
 
 Op(o) == hist' = Append(hist, o)
 Can == Len(hist) < MaxOps
 
-Init == segs = <<>> /\ bms = <<>> /\ pls = <<>> /\ its = <<>> /\ accs = <<>> /\ hist = <<>> /\ last = [kind |-> "none"]
+Init == segs = <<>> /\ bms = <<>> /\ pls = <<>> /\ its = <<>> /\ accs = <<>> /\ flists = <<>> /\ dvrs = <<>> /\ dits = <<>>
+        /\ hist = <<>> /\ last = [kind |-> "none"]
 
 NDocs(s) == Len(segs[s].c.docs)
 Vocab == {<<"a", <<120>>>>, <<"a", <<121>>>>, <<"b", <<120>>>>, <<"_id", <<48>>>>, <<"a", <<>>>>, <<"zz", <<120>>>>}
@@ -41,13 +45,13 @@ GBuild(b) ==
     /\ Can /\ Len(segs) < 3
     /\ segs' = Append(segs, [c |-> Build(Catalogue[b]), kind |-> "built"])
     /\ Op([op |-> "build", batch |-> b, seg |-> Len(segs) + 1])
-    /\ last' = [kind |-> "build"] /\ UNCHANGED <<bms, pls, its, accs>>
+    /\ last' = [kind |-> "build"] /\ UNCHANGED <<bms, pls, its, accs, flists, dvrs, dits>>
 
 GDefBm(docs) ==
     /\ Can /\ Len(bms) < 2
     /\ bms' = Append(bms, docs)
     /\ Op([op |-> "def_bm", bm |-> Len(bms) + 1, docs |-> SetToSorted(docs, <)])
-    /\ last' = [kind |-> "def_bm"] /\ UNCHANGED <<segs, pls, its, accs>>
+    /\ last' = [kind |-> "def_bm"] /\ UNCHANGED <<segs, pls, its, accs, flists, dvrs, dits>>
 
 \* Merge(inputs, drops): drops are caller-owned bitmaps (0 = nil)
 GMerge(ins, dr) ==
@@ -61,13 +65,13 @@ GMerge(ins, dr) ==
     /\ last' = [kind |-> "merge"]
     \* deviation: the merger run-optimises / clears the caller's bitmap
     /\ bms' = IF "MergeTouchesBitmap" \in Dev /\ dr[1] # 0 THEN [bms EXCEPT ![dr[1]] = {}] ELSE bms
-    /\ UNCHANGED <<pls, its, accs>>
+    /\ UNCHANGED <<pls, its, accs, flists, dvrs, dits>>
 
 GPersistLoad(s) ==
     /\ Can /\ s \in DOMAIN segs /\ Len(segs) < 4
     /\ segs' = Append(segs, [c |-> segs[s].c, kind |-> "loaded"])
     /\ Op([op |-> "persist_load", from |-> s, seg |-> Len(segs) + 1])
-    /\ last' = [kind |-> "persist_load"] /\ UNCHANGED <<bms, pls, its, accs>>
+    /\ last' = [kind |-> "persist_load"] /\ UNCHANGED <<bms, pls, its, accs, flists, dvrs, dits>>
 
 \* Dictionary(field).PostingsList(term, except, prealloc)
 GPlOpen(s, ft, ex, pre) ==
@@ -80,14 +84,14 @@ GPlOpen(s, ft, ex, pre) ==
                       fresh |-> Cardinality(ListDocs(Postings(segs[s].c, ft[1], ft[2])) \ exset)]
     /\ Op([op |-> "pl_open", seg |-> s, field |-> ft[1], term |-> ft[2], ex |-> ex, prealloc |-> pre,
            pl |-> IF pre = 0 THEN Len(pls) + 1 ELSE pre])
-    /\ UNCHANGED <<segs, bms, its, accs>>
+    /\ UNCHANGED <<segs, bms, its, accs, flists, dvrs, dits>>
 
 GItOpen(p, pre) ==
     /\ Can /\ p \in DOMAIN pls /\ pre \in 0..Len(its) /\ Len(its) < 3
     /\ LET new == [pl |-> p, plgen |-> pls[p].gen, idx |-> 0, closed |-> FALSE] IN
        its' = IF pre = 0 THEN Append(its, new) ELSE [its EXCEPT ![pre] = new]
     /\ Op([op |-> "it_open", pl |-> p, prealloc |-> pre, it |-> IF pre = 0 THEN Len(its) + 1 ELSE pre])
-    /\ last' = [kind |-> "it_open"] /\ UNCHANGED <<segs, bms, pls, accs>>
+    /\ last' = [kind |-> "it_open"] /\ UNCHANGED <<segs, bms, pls, accs, flists, dvrs, dits>>
 
 \* an iterator is usable while its list object still holds the list it was opened on
 Live(i) == i \in DOMAIN its /\ pls[its[i].pl].gen = its[i].plgen /\ ~its[i].closed
@@ -101,20 +105,20 @@ GItStep(i, d) ==
        IN /\ its' = [its EXCEPT ![i].idx = IF j = 0 THEN Len(list) ELSE j]
           /\ last' = [kind |-> "it_step", doc |-> IF j = 0 THEN -1 ELSE list[j].doc]
     /\ Op([op |-> IF d = 0 THEN "it_next" ELSE "it_adv", it |-> i, d |-> d])
-    /\ UNCHANGED <<segs, bms, pls, accs>>
+    /\ UNCHANGED <<segs, bms, pls, accs, flists, dvrs, dits>>
 
 \* Close(): the iterator may only be handed back as prealloc afterwards
 GItClose(i) ==
     /\ Can /\ Live(i)
     /\ its' = [its EXCEPT ![i].closed = TRUE]
     /\ Op([op |-> "it_close", it |-> i])
-    /\ last' = [kind |-> "it_close"] /\ UNCHANGED <<segs, bms, pls, accs>>
+    /\ last' = [kind |-> "it_close"] /\ UNCHANGED <<segs, bms, pls, accs, flists, dvrs, dits>>
 
 \* Dictionary(field).Close(): nothing else notices
 GDictClose(s, f) ==
     /\ Can /\ s \in DOMAIN segs
     /\ Op([op |-> "dict_close", seg |-> s, field |-> f])
-    /\ last' = [kind |-> "dict_close"] /\ UNCHANGED <<segs, bms, pls, its, accs>>
+    /\ last' = [kind |-> "dict_close"] /\ UNCHANGED <<segs, bms, pls, its, accs, flists, dvrs, dits>>
 
 \* CollectionStats(field) hands the caller an object; Merge adds another object to it
 StatFields == {"a", "b", "_id", "zz"}
@@ -122,7 +126,7 @@ GStatsGet(s, f) ==
     /\ Can /\ s \in DOMAIN segs /\ Len(accs) < 3
     /\ accs' = Append(accs, [val |-> Stats(segs[s].c, f), known |-> KnownField(segs[s].c, f)])
     /\ Op([op |-> "stats_get", seg |-> s, field |-> f, r |-> Len(accs) + 1])
-    /\ last' = [kind |-> "stats_get"] /\ UNCHANGED <<segs, bms, pls, its>>
+    /\ last' = [kind |-> "stats_get"] /\ UNCHANGED <<segs, bms, pls, its, flists, dvrs, dits>>
 
 GStatsAdd(a, b) ==
     /\ Can /\ a \in DOMAIN accs /\ b \in DOMAIN accs /\ a # b
@@ -131,23 +135,65 @@ GStatsAdd(a, b) ==
                    THEN [accs[k] EXCEPT !.val = StatsAdd(accs[k].val, accs[b].val)]       \* deviation: one shared object
                    ELSE accs[k]]                                                           \* for all unknown fields
     /\ Op([op |-> "stats_add", r |-> a, r2 |-> b])
-    /\ last' = [kind |-> "stats_add", a |-> a] /\ UNCHANGED <<segs, bms, pls, its>>
+    /\ last' = [kind |-> "stats_add", a |-> a] /\ UNCHANGED <<segs, bms, pls, its, flists, dvrs, dits>>
 
 GStatsRead(a) ==
     /\ Can /\ a \in DOMAIN accs
     /\ Op([op |-> "stats_read", r |-> a])
-    /\ last' = [kind |-> "stats_read"] /\ UNCHANGED <<segs, bms, pls, its, accs>>
+    /\ last' = [kind |-> "stats_read"] /\ UNCHANGED <<segs, bms, pls, its, accs, flists, dvrs, dits>>
 
 \* VisitStoredFields(n) whose visitor stops after `stop` fields (0 = never)
 GStored(s, n, stop) ==
     /\ Can /\ s \in DOMAIN segs
     /\ Op([op |-> "stored", seg |-> s, n |-> n, stop |-> stop])
-    /\ last' = [kind |-> "stored"] /\ UNCHANGED <<segs, bms, pls, its, accs>>
+    /\ last' = [kind |-> "stored"] /\ UNCHANGED <<segs, bms, pls, its, accs, flists, dvrs, dits>>
 
 GRead(s, what) ==
     /\ Can /\ s \in DOMAIN segs
     /\ Op([op |-> what, seg |-> s])
-    /\ last' = [kind |-> what] /\ UNCHANGED <<segs, bms, pls, its, accs>>
+    /\ last' = [kind |-> what] /\ UNCHANGED <<segs, bms, pls, its, accs, flists, dvrs, dits>>
+
+\* a caller-owned field list (one slice object); DocumentValueReader(list) only reads it
+FieldListChoices == {<<"a">>, <<"zz", "a">>, <<"b", "a", "_id">>}
+GDefFields(fl) ==
+    /\ Can /\ Len(flists) < 2
+    /\ flists' = Append(flists, fl)
+    /\ Op([op |-> "def_fields", fl |-> Len(flists) + 1])
+    /\ last' = [kind |-> "def_fields"] /\ UNCHANGED <<segs, bms, pls, its, accs, dvrs, dits>>
+
+GDvOpen(s, l) ==
+    /\ Can /\ s \in DOMAIN segs /\ l \in DOMAIN flists /\ Len(dvrs) < 2
+    /\ dvrs' = Append(dvrs, [seg |-> s, fl |-> l])
+    \* deviation: the callee compacts / sorts the caller's slice in place (seeded C07-k, C15-l)
+    /\ flists' = IF "DvOpenEditsList" \in Dev /\ Len(flists[l]) > 1 THEN [flists EXCEPT ![l] = Tail(@) \o <<Head(Tail(@))>>] ELSE flists
+    /\ Op([op |-> "dv_open", seg |-> s, r |-> Len(dvrs) + 1, fields |-> flists[l]])
+    /\ last' = [kind |-> "dv_open"] /\ UNCHANGED <<segs, bms, pls, its, accs, dits>>
+
+GDvVisit(r, n) ==
+    /\ Can /\ r \in DOMAIN dvrs /\ n < NDocs(dvrs[r].seg)
+    /\ Op([op |-> "dv_visit", r |-> r, n |-> n])
+    /\ last' = [kind |-> "dv_visit"] /\ UNCHANGED <<segs, bms, pls, its, accs, flists, dvrs, dits>>
+
+\* dictionary iterators: opening, stepping and closing one leaves every other one alone - also when both were
+\* handed the same shared empty object (unknown field "zz")
+GDitOpen(s, f) ==
+    /\ Can /\ s \in DOMAIN segs /\ Len(dits) < 3
+    /\ dits' = Append(dits, [seg |-> s, field |-> f, open |-> TRUE])
+    /\ Op([op |-> "dit_open", seg |-> s, field |-> f, r |-> Len(dits) + 1])
+    /\ last' = [kind |-> "dit_open"] /\ UNCHANGED <<segs, bms, pls, its, accs, flists, dvrs>>
+
+GDitNext(i) ==
+    /\ Can /\ i \in DOMAIN dits /\ dits[i].open
+    /\ Op([op |-> "dit_next", r |-> i])
+    /\ last' = [kind |-> "dit_next"] /\ UNCHANGED <<segs, bms, pls, its, accs, flists, dvrs, dits>>
+
+GDitClose(i) ==
+    /\ Can /\ i \in DOMAIN dits /\ dits[i].open
+    /\ dits' = [k \in DOMAIN dits |->
+                   IF k = i \/ ("CloseKillsEmptyIts" \in Dev /\ dits[i].field = "zz" /\ dits[k].field = "zz")     \* seeded C08-l
+                   THEN [dits[k] EXCEPT !.open = FALSE] ELSE dits[k]]
+    /\ Op([op |-> "dit_close", r |-> i])
+    /\ last' = [kind |-> "dit_close", i |-> i] /\ UNCHANGED <<segs, bms, pls, its, accs, flists, dvrs>>
 
 Next ==
     \/ \E b \in BatchIds : GBuild(b)
@@ -164,6 +210,11 @@ Next ==
     \/ \E a, b \in DOMAIN accs : GStatsAdd(a, b)
     \/ \E a \in DOMAIN accs : GStatsRead(a)
     \/ \E s \in DOMAIN segs : \E n \in 0..2 : \E stop \in 0..1 : GStored(s, n, stop)
+    \/ \E fl \in FieldListChoices : GDefFields(fl)
+    \/ \E s \in DOMAIN segs : \E l \in DOMAIN flists : GDvOpen(s, l)
+    \/ \E r \in DOMAIN dvrs : \E n \in 0..2 : GDvVisit(r, n)
+    \/ \E s \in DOMAIN segs : \E f \in {"a", "zz"} : GDitOpen(s, f)
+    \/ \E i \in DOMAIN dits : GDitNext(i) \/ GDitClose(i)
 
 Spec == Init /\ [][Next]_vars
 
@@ -172,6 +223,10 @@ SegmentsImmutable == [][\A h \in DOMAIN segs : h \in DOMAIN segs' /\ segs'[h] = 
 BitmapsImmutable == [][\A k \in DOMAIN bms : k \in DOMAIN bms' /\ bms'[k] = bms[k]]_vars
 \* C15/C16: Merge changes its receiver only
 StatsIndependent == [][\A k \in DOMAIN accs : k \in DOMAIN accs' /\ (last'.kind # "stats_add" \/ last'.a # k) => accs'[k] = accs[k]]_vars
+\* C15 (caller side): a field list handed to DocumentValueReader is the caller's and stays what it was
+FieldListsImmutable == [][\A k \in DOMAIN flists : k \in DOMAIN flists' /\ flists'[k] = flists[k]]_vars
+\* C08 / C13: a dictionary iterator is closed by its own Close() only
+DitsIndependent == [][\A k \in DOMAIN dits : k \in DOMAIN dits' /\ ((last'.kind = "dit_close" /\ last'.i = k) \/ dits'[k] = dits[k])]_vars
 \* C13: a lookup yields what a fresh object would yield
 ReuseTransparent == last.kind = "pl_open" => last.count = last.fresh
 
